@@ -132,6 +132,9 @@ def run(tier):
         json.dump(behs, open(os.path.join(work, "cibehs.json"), "w"))
         rn, rl = (12, 100) if tier == "quick" else (120, 150)
         runs.append(("random", ["random", "-seed", str(seed), "-n", str(rn), "-len", str(rl)]))
+        # one service with more instances than a third of the state store's watch limit (8192): single changes deep inside the list
+        SCALE_N = 2900
+        runs.append(("scale", ["scale", "-n", str(SCALE_N)]))
         for kind, args in runs:
             tpc = os.path.join(work, "ci-%s.ndjson" % kind)
             pr = vf.run_harness(cibin, args + ["-out", tpc], timeout=7200)
@@ -166,9 +169,12 @@ def run(tier):
                     hits["catidx:" + nm] = hits.get("catidx:" + nm, 0) + 1
                     hist = [x["cmd"] for x in crow if x["h"] == e["h"] and x["i"] <= e["i"]]
                     bad = [o for o in e["obs"] if o["fam"] == fam][:2]
+                    rp = {"kind": "catidx", "cmds": hist, "predicate": pred, "family": fam}
+                    if kind == "scale":
+                        rp = {"kind": "catidx-scale", "n": SCALE_N, "predicate": pred, "family": fam}
                     verdict.add("%s:%s:%s:%s" % (PID, pred, fam, e["cmd"]["t"]),
                                 "%s on %s across %s (%s history %d entry %d): %s" % (pred, fam, json.dumps(e["cmd"], sort_keys=True)[:200], kind, e["h"], e["i"], json.dumps(bad)[:300]),
-                                {"kind": "catidx", "cmds": hist, "predicate": pred, "family": fam})
+                                rp)
         ci_cov["reads_changed"] = len(ci_changed)
         if len(ci_changed) < 12:
             raise vf.Infra("vacuity: only %d catalog reads of the CatIndex battery ever changed" % len(ci_changed))
@@ -205,8 +211,21 @@ def replay_catidx(path, rp):
     work = vf.new_scratch("verif-replay-")
     try:
         bp = os.path.join(work, "b.json")
-        json.dump([rp["cmds"]], open(bp, "w"))
         tp = os.path.join(work, "t.ndjson")
+        if rp["kind"] == "catidx-scale":
+            pr = vf.run_harness(binary, ["scale", "-n", str(rp["n"]), "-out", tp], timeout=3600)
+            if pr.returncode != 0:
+                raise vf.Infra(pr.stderr[-2000:])
+            meta = json.loads(pr.stdout)
+            r = vf.tlc_validate("CatIndexTrace", "CatIndexTrace.cfg", tp, nevents=meta["events"])
+            want = rp["predicate"] + ":" + rp["family"]
+            if any(want in ns for _, ns in r.rejects):
+                print("rejected: %s in the scale scenario" % want)
+                print("VIOLATION property=%s replay=%s" % (PID, path))
+                return 1
+            print("replay accepted")
+            return 0
+        json.dump([rp["cmds"]], open(bp, "w"))
         pr = vf.run_harness(binary, ["replay", "-in", bp, "-out", tp], timeout=3600)
         if pr.returncode != 0:
             raise vf.Infra(pr.stderr[-2000:])
@@ -226,7 +245,7 @@ def replay_catidx(path, rp):
 
 def replay(path):
     rp = json.load(open(path))["replay"]
-    if rp.get("kind") == "catidx":
+    if rp.get("kind") in ("catidx", "catidx-scale"):
         return replay_catidx(path, rp)
     binary = vf.build("h-fsm")
     work = vf.new_scratch("verif-replay-")
